@@ -10,7 +10,7 @@ RULE = ("whole crawls (real pipeline) stopped at a chosen moment - idle, before 
         "within the HTTP timeout plus a margin without a panic, and afterwards every WARC file must carry its final name and consist of "
         "complete members (read back with compress/gzip). Non-trivial: a stop while requests were in flight or while paused; distinct by "
         "(configuration, moment)")
-MOMENTS = ["idle", "first", "held", "requests", "requests", "paused", "drain"]
+MOMENTS = ["idle", "first", "held", "requests", "requests", "paused", "drain", "paused-hub", "retrying"]
 
 
 def site(r):
@@ -30,7 +30,22 @@ def gen(r, k, moment=None, cfg=None):
                 "disableSeencheck": r.random() < 0.3, "warcPoolSize": r.choice([1, 2, 3]), "hqBatchSize": 2}
     pages = site(r)
     scn = {"seeds": ["/s0/", "/s1/", "/s2/"], "site": pages, "cfg": c, "useHQ": r.random() < 0.4, "moment": m}
-    if m == "idle":
+    if m == "paused-hub":
+        # paused while a postprocessor worker is handing on more outlinks than the next channel can hold
+        pages["/hub/"] = {"ctype": "text/html", "body": {"kind": "html", "assets": [], "outlinks": ["/hub/p%d" % i for i in range(r.choice([50, 400]))]}}
+        scn["seeds"] = ["/hub/"]
+        c["maxHops"] = 1
+        scn["stop"] = {"when": "paused", "n": 1, "extraMs": 300, "timeoutMs": 8000}
+    elif m == "retrying":
+        # more failing assets than asset slots, retries with back-off: the stop arrives while started captures are off the wire
+        assets = ["/rt/a%d.bin" % i for i in range(6)]
+        pages["/rt/"] = {"ctype": "text/html", "body": {"kind": "html", "assets": assets, "outlinks": []}}
+        for a in assets:
+            pages[a] = {"status": 503, "ctype": "text/plain", "body": {"kind": "text", "size": 20, "seed": 1}}
+        scn["seeds"] = ["/rt/"]
+        c["maxRetry"], c["maxConcurrentAssets"], c["workers"] = 2, 2, 1
+        scn["stop"] = {"when": "requests", "n": r.choice([3, 4, 5]), "extraMs": r.choice([100, 500, 1200]), "timeoutMs": 15000, "afterStopMs": 5000}
+    elif m == "idle":
         scn["seeds"] = []
         scn["stop"] = {"when": "time", "ms": 300}
     elif m == "first":
@@ -53,7 +68,7 @@ def judge(ctx, scn, rep, err):
     rp = {"domain": "e2e", "scenario": scn}
     c = scn["cfg"]
     what = "stop %s under %s" % (scn["moment"], {k: v for k, v in c.items() if v not in (False, 0, None)})
-    ctx.case(json.dumps([c, scn["moment"], scn.get("useHQ")]), scn["moment"] in ("held", "requests", "paused"))
+    ctx.case(json.dumps([c, scn["moment"], scn.get("useHQ")]), scn["moment"] in ("held", "requests", "paused", "paused-hub", "retrying"))
     ctx.count("moment:" + scn["moment"])
     for k in ("socksProxy", "warcAsync", "disableSeencheck"):
         if c.get(k):
@@ -62,11 +77,13 @@ def judge(ctx, scn, rep, err):
         ctx.violation("the crawler crashed before / during the %s: %s" % (what, rep.get("panic") or rep.get("harnessLine") or err[-300:]), rp); return
     if rep.get("harnessTimeout"):
         ctx.violation("the run never came back (%s)" % what, rp); return
+    if rep.get("requestsAfterStop"):
+        ctx.violation("%d request(s) reached the origin after controler.Stop() had returned (%s)" % (rep["requestsAfterStop"], what), rp); return
     if rep.get("stopPanic"):
         ctx.violation("controler.Stop() panicked (%s): %s" % (what, rep["stopPanic"]), rp); return
     if rep.get("stopHung"):
         ctx.violation("controler.Stop() had not returned after 20 s (%s); blocked: %s" % (what, (rep.get("blocked") or [])[:3]), rp); return
-    bound = (c.get("httpTimeout", 5) + 6) * 1000
+    bound = (c.get("httpTimeout", 5) + 6 + (4 if scn["moment"] == "retrying" else 0)) * 1000      # a capture in back-off sleeps up to 2 x retry seconds
     if rep.get("stopMs", 0) > bound:
         ctx.violation("controler.Stop() took %d ms (bound %d ms) (%s)" % (rep["stopMs"], bound, what), rp); return
     opened = [f for f in rep.get("warcFiles") or [] if f.endswith(".open")]
